@@ -221,6 +221,13 @@ func modeWire(c *Ctx) {
 					continue
 				}
 				docs := [][]byte{text}
+				if i == 0 {
+					// documents that several oneOf alternatives accept (invalid for the schema,
+					// but both forms of the spec must treat them alike)
+					for _, u := range dg.Unions(op.Spec.Body.RawSchema) {
+						docs = append(docs, EncodeDoc(u, 0))
+					}
+				}
 				if i%3 == 0 {
 					for _, fm := range dg.Faults(doc, op.Spec.Body.RawSchema) {
 						docs = append(docs, EncodeDoc(fm.Doc, 0))
